@@ -275,8 +275,8 @@ IndexT(x) ==
            /\ res' = IF AllInts(e, Len(x.I)) THEN NumRes(D.v[1], st) ELSE ValRes("tt", <<>>, D.sh, D, st)
 \* operators: row items then column items, pairwise of the same kind
 PairExprs(M, N) ==
-    LET d == Len(M) IN
-    {re \o ce : re \in BaseExprs(M, 1, d), ce \in BaseExprs(N, 1, d)}
+    LET d == Len(M)  dd == IF d >= 3 THEN 2 * d ELSE d IN      \* order >= 3: ITEMS is asked for the order of the pair (the rich set would give 16^6 pairs)
+    {re \o ce : re \in BaseExprs(M, 1, dd), ce \in BaseExprs(N, 1, dd)}
 IndexM(A) ==
     /\ "index_m" \in OPS /\ A.k = "ttm"
     /\ \E e \in PairExprs(A.I, A.J) :
